@@ -1,4 +1,6 @@
 import Firebolt.Properties.C07
+import Firebolt.Generated.Source
+import Firebolt.Expected.Source
 /-!
 # C09 — Recovery follows partition ownership and survives restarts and rebalances
 
@@ -140,5 +142,15 @@ example :
     (run s0 [.own [0, 1], .refresh, .req 0 10 14, .refresh]).1.active = [(0, ⟨10, 10, 14⟩)] ∧
     (run s0 [.req 0 10 14, .own [0, 1], .refresh, .revoke]).1.active = [] := by
   decide
+
+
+/-! ### the functions this model was transcribed from are unchanged (regenerated from /repo on every run) -/
+theorem source_refreshAssignments : GeneratedSrc.refreshAssignments = ExpectedSrc.refreshAssignments := by rfl
+theorem source_partitionAssignmentsChanged : GeneratedSrc.partitionAssignmentsChanged = ExpectedSrc.partitionAssignmentsChanged := by rfl
+theorem source_setActivePartitionMap : GeneratedSrc.setActivePartitionMap = ExpectedSrc.setActivePartitionMap := by rfl
+theorem source_setAssignedPartitions : GeneratedSrc.setAssignedPartitions = ExpectedSrc.setAssignedPartitions := by rfl
+theorem source_revokePartitionAssignments : GeneratedSrc.revokePartitionAssignments = ExpectedSrc.revokePartitionAssignments := by rfl
+theorem source_kcReceive : GeneratedSrc.kcReceive = ExpectedSrc.kcReceive := by rfl
+theorem source_rcRecoverSingleEvent : GeneratedSrc.rcRecoverSingleEvent = ExpectedSrc.rcRecoverSingleEvent := by rfl
 
 end Firebolt.C09
